@@ -442,7 +442,7 @@ func evalTree(r *rep.Run, root *Node, idx int) {
 
 // ---- integrations ------------------------------------------------------------
 
-var xids = []string{"a", "192.168.0.1:8091:2001", strings.Repeat("x", 4096), "世界:8091:1", "a,b;c=d&e", " lead", "UPPER:lower:Mixed"}
+var xids = []string{"a", "192.168.0.1:8091:2001", strings.Repeat("x", 4096), "世界:8091:1", "a,b;c=d&e", " lead", "UPPER:lower:Mixed", "12+34", "abc%3A42", "node%2B1:8091:7", "100%"}
 
 type fakeInvoker struct {
 	protocol.Invoker
